@@ -65,6 +65,23 @@ FileVerdict(e) ==
   ELSE IF e.base = e.ref THEN "NotIsolated"
   ELSE "ContentDiffers"
 
+\* Isolation against the tree WITHOUT the failing files (model: FilesIso.tla).
+\* Used for trees whose files carry DISTINCT secrets, where the output of a file
+\* depends on what was processed before it, so there is no per-file reference:
+\*   absent     the slot after the run of the same entry point on the same tree
+\*              from which the failing files have been removed
+\*   allfailed  every injected fault of this run did fail (was reported); when an
+\*              implementation manages to process such a file its secrets may
+\*              legitimately take part in the numbering: clause not applicable
+\* The failing file's own slot stays a don't-care.
+IsoVerdict(e) ==
+  IF e.in1 # e.in0 THEN "InputModified"
+  ELSE IF e.fault # "none"
+       THEN (IF e.reported \/ e.out = e.ifproc THEN "ok" ELSE "FailureNotReported")
+  ELSE IF e.out = e.pre THEN "NotWritten"
+  ELSE IF e.allfailed /\ e.out # e.absent THEN "IsolationVsAbsent"
+  ELSE "ok"
+
 EndVerdict(e) == IF e.others1 # e.others0 THEN "SomethingElseWritten" ELSE "ok"
 
 \* ---------------------------------------------------------------------------
